@@ -515,7 +515,7 @@ class PrimaryOrSupplementaryVD:
         added_block = False
         for block in self.rr_ce_blocks:
             offset = block.add_entry(length)
-            if offset is not None:
+            if offset >= 0:
                 break
         else:
             # We didn't find a block this would fit in; add one.
